@@ -92,6 +92,46 @@ def polygon_bins(chk, ld):
                            model={}, replay=_replay_bins(), abstracted=True)
 
 
+def polygon_lines(chk, ld):
+    """the statements of ConvexPolygon._distance_to_surface_from that compute slope and intercept of every edge (from `slopes = ...` up to
+    `angles_shifted = ...`, extracted mechanically) on a symbolic number of edges with end points p1, p2: where the edge is not vertical,
+    both end points lie on y = m x + b; a vertical edge (equal x) is marked by m = b = inf -- the convention the loop body relies on"""
+    from pyvc import paths  # noqa: F401
+    from . import mutators as M
+    seg, params, text, sha = ld.extract_segment("coxeter.shapes.convex_polygon", "ConvexPolygon._distance_to_surface_from",
+                                                lambda t_: t_.startswith("slopes = "), stop=lambda t_: t_.startswith("angles_shifted = "))
+    fkey = chk.function("coxeter.shapes.convex_polygon", "ConvexPolygon._distance_to_surface_from")
+    P1, P2 = sp.Function("P1", real=True), sp.Function("P2", real=True)
+    k = M.NV.k
+
+    def run():
+        out = seg(**{"num_verts": M.NV.size, "p1": make("P1", (M.NV, 3)), "p2": make("P2", (M.NV, 3))})
+        return out["slopes"], out["y_int"]
+    for p in chk.explore(fkey, run, assumptions=M.NV.facts()):
+        if p.kind != "return":
+            chk.path_raised(fkey, p)
+            continue
+        sl, yi = p.value
+        ok = all(isinstance(x, SymArr) and x.axes == (M.NV,) for x in (sl, yi))
+        chk.record("distance_to_surface.lines:one_slope_and_intercept_per_edge", fkey, "proved" if ok else "refuted", "shape", model={}, replay=_replay_bins(), abstracted=True)
+        if not ok:
+            continue
+        m_e, b_e = to_expr(sl.inner[()]), to_expr(yi.inner[()])
+        x1, y1, x2, y2 = P1(k, 0), P1(k, 1), P2(k, 0), P2(k, 1)
+        nonvert = sp.Ne(x1 - x2, 0)
+
+        def on(cond, e):
+            return e.xreplace({cond: sp.true}) if cond in e.atoms(sp.Ne) else sp.piecewise_fold(e).subs(cond, True)
+        mf, bf = on(nonvert, m_e), on(nonvert, b_e)
+        g1 = sp.simplify(y1 - (mf * x1 + bf)) == 0 and sp.simplify(y2 - (mf * x2 + bf)) == 0
+        chk.record("distance_to_surface.lines:both_end_points_lie_on_the_line_y=mx+b", fkey, "proved" if g1 else "refuted", "sympy-normal-form",
+                   detail="" if g1 else f"m = {str(mf)[:80]}, b = {str(bf)[:80]}", model={}, replay=_replay_bins(), abstracted=True)
+        mv, bv = m_e.xreplace({nonvert: sp.false}), b_e.xreplace({nonvert: sp.false})
+        g2 = mv == sp.oo and bv == sp.oo
+        chk.record("distance_to_surface.lines:a_vertical_edge_is_marked_by_infinite_slope_and_intercept", fkey, "proved" if g2 else "refuted", "structure",
+                   detail=f"m = {mv}, b = {bv}", model={}, replay=_replay_bins(), abstracted=True)
+
+
 def _replay_bins():
     """real ConvexPolygon.distance_to_surface on polygons with horizontal, vertical and slanted edges against exact ray casting"""
     def replay(model):
@@ -157,5 +197,7 @@ def run(chk):
         oblig.RELATIONS[:] = []
     chk.section("ConvexPolygon.distance_to_surface:angle_bins", "coxeter.shapes.convex_polygon::ConvexPolygon._distance_to_surface_from",
                 lambda: polygon_bins(chk, ld))
+    chk.section("ConvexPolygon.distance_to_surface:edge_lines", "coxeter.shapes.convex_polygon::ConvexPolygon._distance_to_surface_from",
+                lambda: polygon_lines(chk, ld))
     from .bounded_c14 import run_bounded
     run_bounded(chk)
